@@ -98,3 +98,38 @@ func (t *Tape) Used() []int32 {
 	}
 	return t.Vals
 }
+
+// SubTape hands the continuation of a tape to a child process: in record mode a derived
+// seed, in replay mode the values not yet consumed.
+type SubTape struct {
+	Replay bool    `json:"replay"`
+	Vals   []int32 `json:"vals"`
+	Seed   uint64  `json:"seed"`
+}
+
+func (t *Tape) Fork() SubTape {
+	if t.replay {
+		p := t.pos
+		if p > len(t.Vals) {
+			p = len(t.Vals)
+		}
+		return SubTape{Replay: true, Vals: append([]int32(nil), t.Vals[p:]...)}
+	}
+	return SubTape{Seed: splitmix(&t.state)}
+}
+
+func FromSubTape(s SubTape) *Tape {
+	if s.Replay {
+		return ReplayTape(s.Vals)
+	}
+	return NewTape(s.Seed)
+}
+
+// Join splices the values a child consumed into the parent tape, so that the flat tape of the
+// parent replays parent and children alike.
+func (t *Tape) Join(used []int32) {
+	if !t.replay {
+		t.Vals = append(t.Vals, used...)
+	}
+	t.pos += len(used)
+}
